@@ -65,7 +65,8 @@ fn get_block_stack_table_removal_multiplicand<E: FieldElement<BaseField = Felt>>
         let parent_fmp = main_trace.fmp(i + 1);
         let parent_stack_depth = main_trace.stack_depth(i + 1);
         let parent_next_overflow_addr = main_trace.parent_overflow_address(i + 1);
-        let parent_fn_hash = main_trace.fn_hash(i);
+        // the function hash of the caller, restored in the row which follows the END
+        let parent_fn_hash = main_trace.fn_hash(i + 1);
 
         [
             ONE,
@@ -121,7 +122,9 @@ fn get_block_stack_table_inclusion_multiplicand<E: FieldElement<BaseField = Felt
         let parent_fmp = main_trace.fmp(i);
         let parent_stack_depth = main_trace.stack_depth(i);
         let parent_next_overflow_addr = main_trace.parent_overflow_address(i);
-        let parent_fn_hash = main_trace.decoder_hasher_state_first_half(i);
+        // the function hash of the caller (the hasher registers hold the hash of the callee, which
+        // for a SYSCALL never becomes the current function hash)
+        let parent_fn_hash = main_trace.fn_hash(i);
         [
             ONE,
             block_id,
